@@ -207,7 +207,7 @@ func (w *World) checkImpls(prop string) []*Obligation {
 	var out []*Obligation
 	for _, key := range sortedKeys(w.Contracts) {
 		c := w.Contracts[key]
-		if !hasProp(c.Props, prop) {
+		if !hasProp(c.Props, prop) || c.Abstract {
 			continue
 		}
 		parts := strings.SplitN(c.Key, ".", 2)
